@@ -29,6 +29,7 @@ def _desc(es, n_of):
 
 
 def cases(tier, seed):
+    yield from extra_cases(seed)
     for ground in (False, True):
         P, f, lam = geom.lattice(seed, ground=ground)
         pts = [list(map(float, p)) for p in P]
@@ -60,7 +61,106 @@ def cases(tier, seed):
                     yield dict(env=env, f=f, pts=pts, wires=w, src=es[0])
 
 
+def extra_cases(seed):
+    """closed loops made of two objects (wire + half-circle arc, two half circles in both orientations), a closed arc
+    with a tail, an arc joined to two wires"""
+    rot, sc, f = geom.variant(seed)
+    lam = geom.C_MININEC / f
+    R, r = 0.06 * lam, 1e-4 * lam
+    w = geom.wire([R, 0., 0.], [-R, 0., 0.], 4, r)
+    wr = geom.wire([-R, 0., 0.], [R, 0., 0.], 4, r)
+    h1 = dict(kind='arc', n=5, radius=R, ang1=0., ang2=180., r=r)
+    h1r = dict(kind='arc', n=5, radius=R, ang1=180., ang2=0., r=r)
+    h2 = dict(kind='arc', n=5, radius=R, ang1=180., ang2=360., r=r)
+    h2r = dict(kind='arc', n=5, radius=R, ang1=360., ang2=180., r=r)
+    loop = dict(kind='arc', n=6, radius=R, ang1=0., ang2=360., r=r)
+    tail = geom.wire([R, 0., 0.], [R + 0.05 * lam, 0.04 * lam, 0.01 * lam], 3, r)
+    for name, objs in (('D-loop', [w, h1]), ('D-loop-rev', [wr, h1]), ('D-loop-arc-first', [h1, w]), ('D-loop-arc-rev', [w, h1r]),
+                       ('two-half-arcs', [h1, h2]), ('two-half-arcs-rev', [h1, h2r]), ('two-half-arcs-rev1', [h1r, h2]),
+                       ('closed-arc-tail', [loop, tail]), ('arc-two-wires', [h1, tail, geom.wire([-R, 0., 0.], [-R - 0.04 * lam, 0.03 * lam, -0.02 * lam], 2, r)])):
+        yield dict(extra=name, env='free', f=f, objs=objs)
+
+
+def evaluate_extra(c):
+    case = dict(f=c['f'], env=c['env'], wires=c['objs'])
+    m = geom.build(case, sources=False)
+    import mininec.mininec as mm
+    # feed: first interior pulse of the first object
+    fp = [p for p in m.pulses if p.geo[0] is p.geo[1]][0]
+    m.register_source(mm.Excitation(1 + 0.3j), fp.idx)
+    m.compute()
+    blocks = report.parse_currents(m.currents_as_mininec())
+    hc = geom.half_currents(m)
+    tol = 10 * geom.ptol(m)
+    imax = float(np.max(np.abs(m.current)))
+    ends = []
+    for gi, g in enumerate(m.geo):
+        s0, s1 = g.segments[0], g.segments[-1]
+        ends.append((gi, 0, np.array(s0.p1, float), np.array(s0.p2, float)))
+        ends.append((gi, 1, np.array(s1.p2, float), np.array(s1.p1, float)))
+    viol, printed = [], {}
+    lastonly = set()
+    groups = []
+    used = set()
+    for i, e in enumerate(ends):
+        if i in used:
+            continue
+        grp = [j for j in range(len(ends)) if j not in used and np.linalg.norm(ends[j][2] - e[2]) < tol]
+        used |= set(grp)
+        groups.append(grp)
+    junc_of = {}
+    for grp in groups:
+        for j in grp:
+            junc_of[j] = grp
+    for gi, (g, b) in enumerate(zip(m.geo, blocks)):
+        rows = list(b['rows'])
+        for e in (0, 1):
+            j = 2 * gi + e
+            exp = 'J' if len(junc_of[j]) > 1 else 'E'
+            if not rows:
+                viol.append(('MISSING', '%s: object %d end %d: no line' % (c['extra'], gi + 1, e + 1)))
+                continue
+            row = rows.pop(0) if e == 0 else rows.pop(-1)
+            if row[0] != exp:
+                viol.append(('ENDKIND', '%s: object %d end %d prints %s expected %s' % (c['extra'], gi + 1, e + 1, row[0], exp)))
+                continue
+            if exp == 'E':
+                if row[1] != 0:
+                    viol.append(('FREE-END', '%s: E line not zero' % c['extra']))
+                continue
+            X, O = ends[j][2], ends[j][3]
+            u = (O - X) / np.linalg.norm(O - X)
+            hv = hc.lookup(X, u)
+            if hv is None:
+                hv = 0j          # no pulse overlaps this end segment half at all
+            expv = hv if e == 0 else -hv
+            printed[j] = row[1]
+            if abs(row[1] - expv) > 2e-6 * imax:
+                # the known first-end slip: the line shows exactly one of several overlapping pulses
+                indiv = []
+                for p in m.pulses:
+                    for h in (0, 1):
+                        v = np.array(p.ends[h], float) - np.array(p.point, float)
+                        if np.linalg.norm(np.array(p.point, float) - X) < tol and np.linalg.norm(v / np.linalg.norm(v) - u) < 1e-4:
+                            ii = m.current[p.idx] * (1 if h == 1 else -1)
+                            indiv.append(ii if e == 0 else -ii)
+                lo = len(indiv) >= 2 and any(abs(row[1] - x) <= 2e-6 * imax for x in indiv)
+                if lo:
+                    lastonly.add(j)
+                viol.append(('J-VALUE-end%d-%s' % (e + 1, 'lastonly' if lo else 'extra'), '%s: object %d end %d prints J=%s, pulse currents on that end sum to %s (%d overlapping pulses)'
+                             % (c['extra'], gi + 1, e + 1, row[1], expv, len(indiv))))
+    for grp in groups:
+        if len(grp) > 1 and all(j in printed for j in grp):
+            tot = sum(printed[j] if ends[j][1] == 1 else -printed[j] for j in grp)
+            mx = max(abs(printed[j]) for j in grp)
+            if abs(tot) > 1e-6 * len(grp) * mx + 1e-9 * imax:
+                viol.append(('KIRCHHOFF-%s' % ('lastonly' if any(j in lastonly for j in grp) else 'extra'), '%s: printed J lines at one junction sum to %s (max %g)' % (c['extra'], tot, mx)))
+    return dict(viol=viol[:6], canon='extra|' + c['extra'], nontriv=True, outcome='extra', dev=0.0)
+
+
 def evaluate(c):
+    if 'extra' in c:
+        return evaluate_extra(c)
     pts = [np.array(p) for p in c['pts']]
     ground = c['env'] != 'free'
     ws = [geom.wire(pts[a], pts[b], n, 1e-4) for a, b, n in c['wires']]
